@@ -17,7 +17,7 @@ RULE = (
 )
 ASSUMPTIONS = [
     "the reference codec is the trusted base: it is 60 lines, has no fcp imports and reproduces the 26 project vectors",
-    "strings are 7-bit ASCII; signalling NaNs are not generated; values are in range",
+    "strings are valid UTF-8 text (ASCII control characters included); signalling NaNs are not generated; values are in range",
 ]
 
 
@@ -97,7 +97,9 @@ def run(run):
             run.violation("front end rejected a well-formed codec schema: %r" % (res.err(),), {"schema": text})
             continue
         fcp = res.unwrap()
-        for name, v, sig in cases:
+        for ci, (name, v, sig) in enumerate(cases):
+            if ci % 5 == 2:
+                CC.provoke_faults(run, fcp, sch, name, v, ci)
             check_case(run, fcp, sch, name, v, text, sig)
         del fcp, res
     CC.address_reuse_history(run, lambda fcp, sch, name, v, text, sig: check_case(run, fcp, sch, name, v, text, sig), run.pick(120, 1200))
